@@ -265,8 +265,11 @@ HookDone(p) ==
                  [] OTHER -> w0
      IN Commit(Drain(Cont([w1 EXCEPT !.pc = ""], s.pc)))
 
+\* The client connection and all server connections are closed (by state: a connection closed by command counts even
+\* while its ConnectionClosed echo is still to come -- the echo is then simply never looked at by this behaviour; the
+\* behaviours that deliver it first are explored as well) and no hook or connect is outstanding.
 Quiesce ==
-  /\ Live /\ s.pc = "" /\ s.cc = "closed" /\ s.sc \in {"none", "failed", "closed", "fin"}
+  /\ Live /\ s.pc = "" /\ s.cc \in {"closing", "closed"} /\ s.sc \in {"none", "failed", "closing", "closed", "fin"}
   /\ ended' = TRUE /\ UNCHANGED s
   /\ Emit(<<[k |-> "env", a |-> "Quiesce", x |-> ""],
             [k |-> "quiescent", flows |-> [i \in 1..s.f |-> [live |-> s.lives[i], kind |-> "plain"]]]>>)
